@@ -84,6 +84,12 @@ fn main() {
                 println!("{} {:?}", p.id, subs);
             }
         }
+        "c06-entries" => {
+            if args.len() < 3 {
+                usage();
+            }
+            println!("{}", ovf::props::c06::entries_child(&args[2]));
+        }
         "emit-randomness" => {
             for l in ovf::props::c12::emit_randomness() {
                 println!("{}", l);
